@@ -244,10 +244,9 @@ pub fn serve_at(o: ohkami::Ohkami, addr: &'static str) -> usize {
 }
 
 pub fn panicked_tasks() -> Vec<(usize, String, String, u32, String)> {
+    // no panic is excused any more: until defect #32 was repaired (`Response::send` panicked when the peer had gone away),
+    // that one panic site was filtered here
     all_panicked_tasks()
-        .into_iter()
-        .filter(|(_, _, file, _, msg)| !(file.ends_with("ohkami/src/response/mod.rs") && (msg.starts_with("Failed to send response") || msg.starts_with("Failed to flush connection"))))
-        .collect()
 }
 
 pub fn all_panicked_tasks() -> Vec<(usize, String, String, u32, String)> {
